@@ -127,11 +127,19 @@ def run(ctx):
     out = []
     for cfg, pc in [(c, pc) for c in (['forward_max_tries 25\n'] + (['retry_on_error on\nforward_max_tries 5\n'] if ctx.thorough else [])) for pc in (False, True)]:
         group = [(i, s) for i, s in enumerate(scens) if s['par']['pconnNonretriable'] == pc]
-        sq = squidctl.Squid(ctx, tree, clock=False, hosts=HOSTS, conf_extra=cfg + ('server_pconn_for_nonretriable allow all\n' if pc else '') + 'connect_timeout 3 seconds\nread_timeout 8 seconds\n')
+        # names with several addresses come from a DNS server of our own (one loopback address per squid instance): a name listed
+        # on several lines of a hosts file keeps only its last address, i.e. a single destination
+        dns_ip = '127.53.%d.%d' % (os.getpid() % 250 + 1, len(out) % 100 + 1 + (100 if pc else 0))
+        sq = squidctl.Squid(ctx, tree, clock=False, dns=dns_ip, conf_extra='dns_timeout 3 seconds\npositive_dns_ttl 1 hours\n' + cfg + ('server_pconn_for_nonretriable allow all\n' if pc else '') + 'connect_timeout 3 seconds\nread_timeout 8 seconds\n')
         sq.start()
         try:
             async def main():
-                return await escen.gather_limited([realise(ctx, sq, i + 1, s, random.Random(ctx.seed * 100003 + i)) for i, s in group], limit=8)
+                dns = await peers.MiniDns(HOSTS).start(dns_ip)
+                try:
+                    return await escen.gather_limited([realise(ctx, sq, i + 1, s, random.Random(ctx.seed * 100003 + i)) for i, s in group], limit=8)
+                finally:
+                    ctx.add('dns_queries_answered', len(dns.queries))
+                    dns.stop()
             out += asyncio.run(main())
             if not sq.alive():
                 ctx.violation('squid exited during the run', {'kind': 'exit', 'log': sq.tail_log()})
